@@ -211,6 +211,14 @@ class ProgGen:
             return self.rng.choice(list(cur))
         return self.vg.key()
 
+    def _mkey(self, cur, miss=None):
+        """key argument of a mutator: in the profiles that plant forbidden data also a forbidden
+        TOP-LEVEL key (non-string; dotted where the family forbids dots)"""
+        if self.p_invalid and self.rng.random() < self.p_invalid * 0.6:
+            kind = self.rng.choice([k for k in self.invalid_kinds if k in ("nonstr", "dot")] or ["nonstr"])
+            return self.rng.choice([1, 0, -3, 42]) if kind == "nonstr" else self.rng.choice(DOT_KEYS)
+        return self._key(cur, miss)
+
     def _index(self, n):
         if n and self.rng.random() > self.p_miss:
             i = self.rng.randrange(n)
@@ -247,16 +255,16 @@ class ProgGen:
         if self._is_dict(obj):
             name = rng.choice(DICT_READ if read else DICT_MUT)
             if name == "dsetitem":
-                return ("call", h, name, self._key(cur, 0.5), self._value())
+                return ("call", h, name, self._mkey(cur, 0.5), self._value())
             if name in ("ddelitem", "dgetitem", "dcontains"):
                 return ("call", h, name, self._key(cur))
             if name in ("dpop", "dget"):
                 return ("call", h, name, self._key(cur), rng.choice([None, 0, "dflt", [1]]))
             if name == "dsetdefault":
-                return ("call", h, name, self._key(cur, 0.6), self._value())
+                return ("call", h, name, self._mkey(cur, 0.6), self._value())
             if name == "dupdate":
                 form = rng.choice(["map", "map", "none", "pairs"])
-                other = {self._key(cur, 0.5): self._value() for _ in range(rng.randint(0, 3))}
+                other = {self._mkey(cur, 0.5): self._value() for _ in range(rng.randint(0, 3))}
                 kw = {}
                 if rng.random() < 0.4:
                     kw = {k: self._value() for k in rng.sample(["a", "b", "kw", "z9"], rng.randint(1, 2))}
@@ -311,7 +319,8 @@ class ProgGen:
         if name == "lgetslice":
             return ("call", h, "lgetitem", self._slice(n))
         if name == "lindex":
-            return ("call", h, name, self._probe(cur), rng.choice([0, 0, 1, -1, -n - 1, n]), rng.choice([None, None, n, -1, 1]))
+            return ("call", h, name, self._probe(cur), rng.choice([0, 0, 1, -1, -n - 1, n, 2, -n, n + 1]),
+                    rng.choice([None, None, n, -1, 1, 0, 0, 2, -n, n + 1, -n - 1]))
         if name in ("leq", "lne"):
             return ("call", h, name, cur if rng.random() < 0.5 else self.vg.value(2))
         if name == "lcmp":
